@@ -669,8 +669,9 @@ func (env *CEnv) call(e *CExpr) Val {
 		// fixed(view): the view as a fixed-size array argument of a pure function
 		v := env.asView(env.eval(e.Args[0]), e)
 		return FXV{v}
-	case "called":
-		// called("pkg.F", k): the k-th call site of pkg.F (source order) has been executed on this path
+	case "called", "ncalls":
+		// ncalls("pkg.F", k): how many times the k-th call site of pkg.F (source order) has been executed on this path
+		// (a ghost counter, 0 at entry); called("pkg.F", k) is ncalls >= 1
 		if len(e.Args) != 2 || e.Args[0].Kind != "str" || e.Args[1].Kind != "num" {
 			fail("%s: called(\"pkg.Func\", k)", e.Pos)
 		}
@@ -684,7 +685,14 @@ func (env *CEnv) call(e *CExpr) Val {
 		if !ok {
 			fail("%s: called(%s): no such call site in the state", e.Pos, key)
 		}
-		return s.cells[id]
+		cnt, isSV := s.cells[id].(SV)
+		if !isSV {
+			fail("%s: ghost counter of %s is not an integer", e.Pos, key)
+		}
+		if e.X.Name == "called" {
+			return boolSV(Ge(cnt.T, Num(1)))
+		}
+		return cnt
 	case "purefn":
 		// purefn("pkg.Func", "r0"|"w1", args...): the uninterpreted function that a `pure` contract attaches to
 		// result/assigned-region of that function, applied to these arguments (same flattening as at call sites)
